@@ -16,15 +16,17 @@ pub mod utc;
 pub use utc::*;
 
 pub(super) fn fixed_timezone(offset: &str) -> String {
-    let gmt_offset = offset[2..offset.find(':').unwrap_or(3)].to_string();
+    // Offset has the `+HH:MM` format
+    let hours = offset.get(1..3).and_then(|h| h.parse::<u32>().ok());
+    let minutes = offset.get(4..6).and_then(|m| m.parse::<u32>().ok());
+    let west = offset.starts_with('-');
 
-    if gmt_offset == "0" {
-        return "UTC".into();
+    match (hours, minutes) {
+        // Only the whole hour offsets have a fixed `Etc/GMT` timezone (GMT-14 to GMT+12)
+        (Some(hours), Some(0)) if hours != 0 && (hours <= 12 || (!west && hours <= 14)) => format!(
+            "Etc/GMT{sign}{hours}",
+            sign = if west { "+" } else { "-" }
+        ),
+        _ => "UTC".into(),
     }
-    let gmt_sign = offset[0..1].to_string();
-
-    format!(
-        "Etc/GMT{sign}{gmt_offset}",
-        sign = if gmt_sign == "-" { "+" } else { "-" }
-    )
 }
